@@ -375,3 +375,121 @@ def r16_2_shuffle(cx):
             if why:
                 break
     cx.report('R16.2', b, 'layout', why is None, 'match states are swapped to 4.. in order, then start_anchored = cursor-1, start_unanchored = cursor-2, max_match = cursor-3 (or the anchored start if it matches); one remap after all swaps (evaluated symbolically)' if why is None else 'shuffle: ' + why)
+
+
+def _c_eq(c):
+    c = canon(c)
+    if c[0] == 'op' and c[1] in ('Eq', 'Ne'):
+        return c[2], c[3], c[1] == 'Eq'
+    if is_call(c, r'PartialEq::(eq|ne)$'):
+        return c[2][0], c[2][1], short(c[1]).endswith('eq')
+    return None
+
+
+def _tail_walk(cx, b, phi, head_expected, rule, tag):
+    """phi must be the cursor of a loop `while matches[cur].link != ZERO { cur = matches[cur].link }` entered at head"""
+    h, l = phi[1], phi[2]
+    if cstr(phi[3]) != head_expected:
+        return 'the walk to the end of the match list starts at %s (expected the list head %s)' % (tstr(canon(phi[3]), 80), head_expected)
+    cur = Sym(cx.facts, b).default_local(l)
+    rows = [r for r in loop_rows(cx.facts, b, h) if r.end == ('stop', h)]
+    if not rows:
+        return 'the tail walk never iterates'
+    nxt = 'core::ops::Index::index(self.matches, %s).link' % cstr(cur)
+    for r in rows:
+        cs = [(e, v) for e, v in ((_c_eq(c), v) for c, v in r.conds) if e is not None and {cstr(e[0]), cstr(e[1])} == {nxt, 'util::primitives::StateID::ZERO'}]
+        if len(cs) != 1 or (cs[0][1] == cs[0][0][2]):
+            return 'the tail walk does not continue exactly while matches[cur].link != ZERO'
+        if cstr(r.env.get(l, cur)) != nxt:
+            return 'a step of the tail walk is not cur = matches[cur].link'
+    return None
+
+
+def r03_6(cx):
+    """new match entries are appended behind the LAST entry of a state's match list (order = pattern order; nothing dropped)"""
+    from acverif.sym import summarize
+    b = cx.body('nfa::noncontiguous::NFA::add_match')
+    SID, PID = cstr(param_at(b, 2)), cstr(param_at(b, 3))
+    head = 'core::ops::Index::index(self.states, %s).matches' % SID
+    rows = [r for r in summarize(cx.facts, b) if r.end == 'return' and is_agg(r.ret, r'Result$', 'Ok')]
+    why = None if rows else 'no successful path'
+    for r in rows:
+        st = [(canon(p), canon(v)) for p, v in r.stores()]
+        new = [c for c in r.calls(r'NFA::alloc_match$')]
+        if len(new) != 1:
+            why = why or 'not exactly one alloc_match on a successful path'
+            continue
+        NEW = cstr(('f', ('dc', new[0], 'Ok'), '0'))
+        pid = [v for p, v in st if cstr(p) == 'core::ops::Index::index_mut(self.matches, %s).pid' % NEW or cstr(p) == 'core::ops::IndexMut::index_mut(self.matches, %s).pid' % NEW]
+        if len(pid) != 1 or cstr(pid[0]) != PID:
+            why = why or 'the new entry does not record the given pattern id'
+        links = [(p, v) for p, v in st if p[0] == 'f' and p[2] in ('link', 'matches') and cstr(v) == NEW]
+        if len(links) != 1:
+            why = why or 'the new entry is linked %d times' % len(links)
+            continue
+        p, v = links[0]
+        base = p[1]
+        tgt = base[2][1] if is_call(base, r'Index(Mut)?::index(_mut)?$') else (base[2] if base[0] == 'idx' else None)
+        if p[2] == 'link':
+            if tgt is None or tgt[0] != 'phi':
+                why = why or 'the new entry is linked behind %s, which is not the end of the list found by the walk (entries in between are dropped)' % (tstr(tgt, 80) if tgt else None)
+                continue
+            z = [(e, val) for e, val in ((_c_eq(c), val) for c, val in r.conds) if e is not None and {cstr(e[0]), cstr(e[1])} == {cstr(tgt), 'util::primitives::StateID::ZERO'}]
+            if not z or any(val == e[2] for e, val in z):
+                why = why or 'linking behind the tail is not restricted to a non-empty list'
+            why = why or _tail_walk(cx, b, tgt, head, 'R03.6', 'add_match')
+        else:
+            if tgt is None or cstr(tgt) != SID:
+                why = why or 'the list head of another state is written'
+            z = [(e, val) for e, val in ((_c_eq(c), val) for c, val in r.conds) if e is not None and 'util::primitives::StateID::ZERO' in (cstr(e[0]), cstr(e[1]))]
+            zz = [(e, val) for e, val in z if (e[0][0] == 'phi' or e[1][0] == 'phi')]
+            if not zz or any(val != e[2] for e, val in zz):
+                why = why or 'the list head is replaced although the list (as found by the walk) is not empty'
+    cx.report('R03.6', b, 'append-at-tail', why is None, 'add_match walks to the last entry of states[sid]\'s list and links the new (pid) entry behind it, or installs it as head of an empty list' if why is None else 'NFA::add_match: ' + why)
+    # copy_matches: every copied entry is appended behind the running tail
+    c = cx.body('nfa::noncontiguous::NFA::copy_matches')
+    SRC, DST = cstr(param_at(c, 2)), cstr(param_at(c, 3))
+    pushes = c.calls(r'Vec.*::push$')
+    why = None
+    if len(pushes) != 1:
+        why = '%d push sites' % len(pushes)
+    else:
+        h = innermost_loop(c, pushes[0][0])
+        rows = [r for r in loop_rows(cx.facts, c, h) if r.end == ('stop', h)] if h is not None else []
+        if not rows:
+            why = 'the copy loop never iterates'
+        sym = Sym(cx.facts, c)
+        mods, _ = sym.loop_mods(h) if h is not None else (set(), False)
+        for r in rows:
+            ps = [canon(x) for x in r.calls(r'Vec.*::push$')]
+            if len(ps) != 1 or cstr(ps[0][2][0]) != 'self.matches' or not is_agg(ps[0][2][1], r'noncontiguous::Match$'):
+                why = why or 'an iteration does not push exactly one Match entry'
+                continue
+            ent = ps[0][2][1][3]
+            srcs = [l for l in mods if cstr(sym.default_local(l)) in cstr(ent['pid']) and c.locals[l]['ty'].endswith('StateID')]
+            if not (re.match(r'^core::ops::Index::index\(self\.matches, \w+\)\.pid$', cstr(ent['pid'])) and cstr(ent['link']) == 'util::primitives::StateID::ZERO' and len(srcs) == 1):
+                why = why or 'the copied entry is %s (expected {pid: matches[src cursor].pid, link: ZERO})' % tstr(ps[0][2][1], 120)
+                continue
+            sl = srcs[0]
+            SC = cstr(sym.default_local(sl))
+            if cstr(r.env.get(sl)) != 'core::ops::Index::index(self.matches, %s).link' % SC:
+                why = why or 'the source cursor does not advance along the source list'
+            news = [x for x in r.calls(r'StateID::new$') if 'len(self.matches)' in cstr(x)]
+            NEW = cstr(('f', ('dc', news[0], 'Ok'), '0')) if news else None
+            links = [(canon(p), canon(v)) for p, v in r.stores() if canon(p)[0] == 'f' and canon(p)[2] in ('link', 'matches') and NEW is not None and cstr(v) == NEW]
+            if len(links) != 1:
+                why = why or 'the copied entry is linked %d times' % len(links)
+                continue
+            p, v = links[0]
+            base = p[1]
+            tgt = base[2][1] if is_call(base, r'Index(Mut)?::index(_mut)?$') else (base[2] if base[0] == 'idx' else None)
+            dls = [l for l in mods if l != sl and c.locals[l]['ty'].endswith('StateID') and r.env.get(l) is not None and cstr(r.env[l]) == NEW]
+            if not dls:
+                why = why or 'the destination tail does not move to the entry just appended'
+                continue
+            DC = cstr(sym.default_local(dls[0]))
+            if p[2] == 'link' and (tgt is None or cstr(tgt) != DC):
+                why = why or 'a copied entry is linked behind %s, not behind the running tail of the destination list' % (tstr(tgt, 60) if tgt else None)
+            if p[2] == 'matches' and (tgt is None or cstr(tgt) != DST):
+                why = why or 'the head of another state is written'
+    cx.report('R03.6', c, 'copy-append', why is None, 'copy_matches appends one entry per source entry behind the running tail of the destination list, in source order' if why is None else 'NFA::copy_matches: ' + why)
